@@ -92,6 +92,9 @@ def generate(seed, tier):
         case['kind'] = 'READ'
         case['source'] = 'solve'
         case['fmt'] = fmt
+        if rng.random() < 0.1 and case.get('profile') == 'contractive':
+            # horizon set on the solver object (overrides the block's line); 0 means: the k=0 row only
+            case['knobs']['maxtime_attr'] = rng.choice([0, 0, 1])
         case['render_trace'] = rng.random() < 0.4
         if case['render_trace'] and case['block'].get('maxtime'):
             case['knobs']['trace_step'] = rng.randint(1, case['block']['maxtime'])
